@@ -34,7 +34,7 @@ def run_mutant(check, relpath, old, new, tier="quick", count=1, extra_env=None):
         env.update(extra_env or {})
         proc = subprocess.run(
             [os.path.join(VERIF, "check"), check, "--tier", tier],
-            env=env, capture_output=True, text=True, timeout=3600,
+            env=env, capture_output=True, text=True, timeout=int(os.environ.get('MUTANT_TIMEOUT', '900')),
         )
         return proc.returncode, proc.stdout[-3000:]
     finally:
